@@ -1,2 +1,10 @@
-import Oas3Model.Model.Naming
-import Oas3Model.Model.EventStream
+-- root of the library: everything `bin/setup` pre-builds
+import Oas3Model.Props.C03
+import Oas3Model.Props.C04
+import Oas3Model.Props.C05
+import Oas3Model.Props.C06
+import Oas3Model.Props.C07
+import Oas3Model.Props.C08
+import Oas3Model.Props.C09
+import Oas3Model.Props.C10
+import Oas3Model.Props.C20
